@@ -277,7 +277,7 @@ def headers_digest(repo: str) -> str:
                     files.append(os.path.join(dp, f))
     files.append(os.path.join(repo, "CMakeLists.txt"))
     for f in sorted(files):
-        h.update(f.encode())
+        h.update(os.path.relpath(f, repo).encode() if f.startswith(repo) else f.encode())
         try:
             with open(f, "rb") as fh:
                 h.update(fh.read())
